@@ -358,6 +358,8 @@ func vfEntityDesc(e *supervisor.ObjectEntity) string {
 
 type vfLive struct {
 	obj     vfObj
+	good    *vfCore   // gates/controllers: latest instance whose Init/Inherit completed (== core unless tainted)
+	fattempt []*vfCore // tainted pipelines: filters of the latest generation attempt whose Init/Inherit completed
 	ent     *supervisor.ObjectEntity // the entity the registry holds for the name
 	core    *vfCore                  // gates: the live instance
 	fcores  map[string]*vfCore       // pipelines: live filter instance per filter name
@@ -598,77 +600,262 @@ func TestVerifC20Rctc(t *testing.T) {
 					add(n, "lifecycle-mismatch", "callbacks on an unknown name %q: %v", n, byName[n])
 				}
 			}
-			exempt := map[string]bool{}
+			// An object whose own callback panicked ("tainted") stays in the model as live. Object level
+			// (gates, controllers): the statement still counts its callbacks (exactly one Close when the
+			// name disappears or the kind changes, no second Init, Inherit once per spec change); open are
+			// only which of its generations (the last completed one or the one whose callback panicked) is
+			// predecessor / closed / reported live, and whether an unchanged snapshot re-inherits it.
+			// Filter level (inside a Pipeline whose filter panicked): Pipeline promises nothing about the
+			// rest of that generation, so only this is judged: no callback outside the expected ones in
+			// the panicking step, fresh instances, no instance closed twice, and when the pipeline
+			// disappears (or changes kind) its one Close reaches exactly the still open filters of one
+			// generation (the stored one, or the last completed one).
+			broken := map[string]bool{}
 			for _, n := range vfNames {
 				old := model[n]
 				lv := newModel[n]
-				if (old != nil && old.tainted) || panicked[n] {
-					vf.Class("name-step-exempt-because-of-own-panic")
-					exempt[n] = true
+				tainted := old != nil && old.tainted
+				sameObject := old != nil && lv != nil && old.obj.Kind == lv.obj.Kind
+				if sameObject {
+					lv.core, lv.good, lv.fcores, lv.fattempt, lv.tainted = old.core, old.good, old.fcores, old.fattempt, old.tainted
+				}
+				if tainted {
+					vf.Class("tainted-name-step-judged-with-narrowed-oracle")
+					if !sameObject {
+						vf.Class("tainted-object-disappears-or-changes-kind")
+					}
+				}
+				var ocalls, fcalls []vfCall
+				var gotO, gotF, wantO, wantF []string
+				fpanic := false
+				for _, c := range byName[n] {
+					if c.Level == "filter" {
+						fcalls = append(fcalls, c)
+						gotF = append(gotF, c.token())
+						fpanic = fpanic || c.Panicked
+					} else {
+						ocalls = append(ocalls, c)
+						gotO = append(gotO, c.token())
+					}
+				}
+				for _, w := range expect[n] {
+					if strings.HasPrefix(w, "f") {
+						wantF = append(wantF, w)
+					} else {
+						wantO = append(wantO, w)
+					}
+				}
+				sort.Strings(gotO)
+				sort.Strings(gotF)
+				sort.Strings(wantO)
+				sort.Strings(wantF)
+
+				// ---- object level
+				okOps := strings.Join(gotO, ",") == strings.Join(wantO, ",")
+				if !okOps && tainted && sameObject && old.obj.Payload == lv.obj.Payload && lv.obj.Kind != "Pipeline" &&
+					len(gotO) == 1 && gotO[0] == "inherit:"+lv.obj.Kind+":"+lv.obj.Payload {
+					vf.Class("ambiguous-tainted-object-reinherited-on-unchanged-spec")
+					okOps = true
+				}
+				if !okOps {
+					add(n, "lifecycle-mismatch", "name %s (tainted by an earlier own panic: %v): callbacks %v, model expects %v", n, tainted, byName[n], expect[n])
+					broken[n] = true
 					if lv != nil {
 						lv.tainted = true
 					}
 					continue
 				}
-				var got []string
-				for _, c := range byName[n] {
-					got = append(got, c.token())
+				allowed := func(c *vfCore) bool {
+					return old != nil && c != nil && (c == old.core || c == old.good)
 				}
-				gs, ws := append([]string{}, got...), append([]string{}, expect[n]...)
-				sort.Strings(gs)
-				sort.Strings(ws)
-				if strings.Join(gs, ",") != strings.Join(ws, ",") {
-					add(n, "lifecycle-mismatch", "name %s: callbacks %v, model expects %v", n, byName[n], expect[n])
-					exempt[n] = true
-					if lv != nil {
-						lv.tainted = true
+				oldDesc := "<none>"
+				if old != nil {
+					oldDesc = old.core.desc()
+					if old.good != old.core {
+						oldDesc += " or " + old.good.desc()
 					}
-					continue
 				}
-				if lv != nil && lv.obj.Kind == "Pipeline" && lv.fcores == nil {
-					lv.fcores = map[string]*vfCore{}
-				}
-				for _, c := range byName[n] {
+				for _, c := range ocalls {
 					fresh := c.Core.nInit+c.Core.nInh == 1 && c.Core.nClose == 0
 					switch c.Op {
-					case "init":
+					case "init", "inherit":
 						if !fresh {
-							add(n, "lifecycle-mismatch", "name %s: Init on an instance that was used before: %s", n, c)
+							add(n, "lifecycle-mismatch", "name %s: %s on an instance that was used before: %s", n, c.Op, c)
 						}
-						if c.Level == "filter" {
-							lv.fcores[c.Sub] = c.Core
+						if c.Op == "inherit" && !allowed(c.Prev) {
+							add(n, "inherit-wrong-predecessor", "name %s: %s but the live generation was %s", n, c, oldDesc)
+						}
+						lv.core = c.Core
+						if c.Panicked {
+							lv.tainted = true
 						} else {
-							lv.core = c.Core
-						}
-					case "inherit":
-						if !fresh {
-							add(n, "lifecycle-mismatch", "name %s: Inherit on an instance that was used before: %s", n, c)
-						}
-						var want *vfCore
-						if c.Level == "filter" {
-							want = old.fcores[c.Sub]
-							lv.fcores[c.Sub] = c.Core
-						} else {
-							want = old.core
-							lv.core = c.Core
-						}
-						if c.Prev != want {
-							add(n, "inherit-wrong-predecessor", "name %s: %s but the live generation was %s", n, c, want.desc())
+							lv.good = c.Core
 						}
 					case "close":
-						var want *vfCore
-						if c.Level == "filter" {
-							want = old.fcores[c.Sub]
-						} else {
-							want = old.core
-						}
-						if c.Core != want {
-							add(n, "close-wrong-instance", "name %s: %s but the live instance was %s", n, c, want.desc())
+						if !allowed(c.Core) {
+							add(n, "close-wrong-instance", "name %s: %s but the live instance was %s", n, c, oldDesc)
 						}
 						if c.Core.nClose != 1 {
 							add(n, "lifecycle-mismatch", "name %s: instance closed %d times: %s", n, c.Core.nClose, c)
 						}
 					}
+				}
+
+				// ---- filter level
+				oldPipe := old != nil && old.obj.Kind == "Pipeline"
+				newPipe := lv != nil && lv.obj.Kind == "Pipeline"
+				if !oldPipe && !newPipe {
+					if len(fcalls) > 0 {
+						add(n, "lifecycle-mismatch", "name %s is no pipeline but filters were called: %v", n, fcalls)
+					}
+					continue
+				}
+				for _, c := range fcalls {
+					if c.Op == "close" {
+						if c.Core.nClose != 1 {
+							add(n, "lifecycle-mismatch", "pipeline %s: filter instance closed %d times: %s", n, c.Core.nClose, c)
+						}
+					} else if c.Core.nInit+c.Core.nInh != 1 || c.Core.nClose != 0 {
+						add(n, "lifecycle-mismatch", "pipeline %s: %s on a filter instance that was used before: %s", n, c.Op, c)
+					}
+				}
+				var started []*vfCore // filters of this step whose Init/Inherit completed
+				nstarts := 0
+				for _, c := range fcalls {
+					if c.Op != "close" {
+						nstarts++
+						if !c.Panicked {
+							started = append(started, c.Core)
+						}
+					}
+				}
+				pipeTainted := oldPipe && tainted
+				if !pipeTainted && !fpanic {
+					// the exact contract
+					if strings.Join(gotF, ",") != strings.Join(wantF, ",") {
+						add(n, "lifecycle-mismatch", "name %s: filter callbacks %v, model expects %v", n, fcalls, wantF)
+						broken[n] = true
+						if lv != nil {
+							lv.tainted = true
+						}
+						continue
+					}
+					if newPipe {
+						nf := map[string]*vfCore{}
+						if sameObject && len(fcalls) == 0 {
+							nf = old.fcores
+						}
+						for _, c := range fcalls {
+							if c.Op != "close" {
+								nf[c.Sub] = c.Core
+							}
+						}
+						lv.fcores, lv.fattempt = nf, nil
+					}
+					for _, c := range fcalls {
+						switch c.Op {
+						case "inherit":
+							if want := old.fcores[c.Sub]; c.Prev != want {
+								add(n, "inherit-wrong-predecessor", "name %s: %s but the live generation was %s", n, c, want.desc())
+							}
+						case "close":
+							if want := old.fcores[c.Sub]; c.Core != want {
+								add(n, "close-wrong-instance", "name %s: %s but the live instance was %s", n, c, want.desc())
+							}
+						}
+					}
+					continue
+				}
+				if !pipeTainted {
+					// first panic of this pipeline happens in this step: nothing outside the expected callbacks
+					rest := append([]string{}, wantF...)
+					for _, g := range gotF {
+						found := false
+						for i, w := range rest {
+							if w == g {
+								rest = append(rest[:i], rest[i+1:]...)
+								found = true
+								break
+							}
+						}
+						if !found {
+							add(n, "lifecycle-mismatch", "name %s: filter callback %s is not among the expected %v (all: %v)", n, g, wantF, fcalls)
+						}
+					}
+					for _, c := range fcalls {
+						if oldPipe && c.Op == "inherit" && c.Prev != old.fcores[c.Sub] {
+							add(n, "inherit-wrong-predecessor", "name %s: %s but the live generation was %s", n, c, old.fcores[c.Sub].desc())
+						}
+						if oldPipe && c.Op == "close" && c.Core != old.fcores[c.Sub] {
+							add(n, "close-wrong-instance", "name %s: %s but the live instance was %s", n, c, old.fcores[c.Sub].desc())
+						}
+					}
+					if newPipe {
+						lv.tainted = true
+						lv.fattempt = started
+						if !sameObject {
+							lv.fcores = nil
+						}
+					}
+					continue
+				}
+				// the pipeline was tainted before this step
+				if !sameObject {
+					// it goes away: its one Close reaches the open filters of one generation
+					closedNow := map[*vfCore]bool{}
+					closePanicked := false
+					for _, c := range fcalls {
+						if c.Op == "close" {
+							closedNow[c.Core] = true
+							closePanicked = closePanicked || c.Panicked
+						}
+					}
+					openOf := func(cs []*vfCore) map[*vfCore]bool {
+						o := map[*vfCore]bool{}
+						for _, c := range cs {
+							k := c.nClose
+							if closedNow[c] {
+								k--
+							}
+							if k == 0 {
+								o[c] = true
+							}
+						}
+						return o
+					}
+					var goodList []*vfCore
+					for _, c := range old.fcores {
+						goodList = append(goodList, c)
+					}
+					match := func(cand map[*vfCore]bool) bool {
+						for c := range closedNow {
+							if !cand[c] {
+								return false
+							}
+						}
+						return closePanicked || len(closedNow) == len(cand)
+					}
+					candA, candB := openOf(old.fattempt), openOf(goodList)
+					if !match(candA) && !match(candB) {
+						var da, db []string
+						for c := range candA {
+							da = append(da, c.desc())
+						}
+						for c := range candB {
+							db = append(db, c.desc())
+						}
+						sort.Strings(da)
+						sort.Strings(db)
+						add(n, "tainted-pipeline-close-mismatch", "pipeline %s (tainted) goes away: filter callbacks %v; one Close must reach the open filters of the stored generation %v or of the last completed one %v", n, fcalls, da, db)
+					}
+					if newPipe { // cannot happen (a kind change leaves the Pipeline kind)
+						lv.tainted = true
+					}
+					continue
+				}
+				// tainted pipeline stays: what its next generation does with the broken one is unspecified
+				if nstarts > 0 {
+					lv.fattempt = started
 				}
 			}
 			for n := range panicked {
@@ -687,7 +874,7 @@ func TestVerifC20Rctc(t *testing.T) {
 				add("", "panic-escaped rctc.Status", "Status panicked at %s: %s", site, text)
 			}
 			for _, n := range vfNames {
-				if exempt[n] {
+				if broken[n] {
 					continue
 				}
 				lv := newModel[n]
@@ -708,14 +895,14 @@ func TestVerifC20Rctc(t *testing.T) {
 					}
 				}
 				if wantGate {
-					if vfCoreOfObject(ge.Instance()) != lv.core {
-						add(n, "live-set-mismatch", "name %s: live instance is %s, model says %s", n, vfCoreOfObject(ge.Instance()).desc(), lv.core.desc())
+					if got := vfCoreOfObject(ge.Instance()); got != lv.core && (got == nil || got != lv.good) {
+						add(n, "live-set-mismatch", "name %s: live instance is %s, model says %s", n, got.desc(), lv.core.desc())
 					}
-					if d, w := vfEntityDesc(ge), lv.obj.Kind+"["+lv.obj.Payload+"]"; d != w {
+					if d, w := vfEntityDesc(ge), lv.obj.Kind+"["+lv.obj.Payload+"]"; !lv.tainted && d != w {
 						add(n, "live-set-mismatch", "name %s: live spec is %s, snapshot says %s", n, d, w)
 					}
 				}
-				if wantPipe {
+				if wantPipe && !lv.tainted {
 					if d, w := vfEntityDesc(pe), "Pipeline["+lv.obj.Payload+"]"; d != w {
 						add(n, "live-set-mismatch", "name %s: live spec is %s, snapshot says %s", n, d, w)
 					}
